@@ -57,8 +57,11 @@ pub struct AttemptLog {
     pub pong_after_ms: Option<f64>,
     /// `silent`: from here on the server neither reads nor writes (the TCP connection stays open)
     pub silent_ms: Option<f64>,
-    /// `tls-stall`: first byte the client sent, peeked and left in the socket (0x16: a TLS handshake record)
+    /// `tls-stall`: first byte the client sent, peeked and left in the socket (0x16: a TLS handshake record);
+    /// `tls-cut` / `tls-reset`: first byte of the record that was read before the connection was cut
     pub first_byte: Option<u8>,
+    /// `tls-cut` / `tls-reset`: octets of the client's first TLS record (header included) read before the cut
+    pub hello_len: Option<usize>,
 }
 
 #[derive(Clone, Debug)]
@@ -190,6 +193,84 @@ fn echo_subprotocol(req: &Request, mut resp: Response) -> Result<Response, Error
     Ok(resp)
 }
 
+/// healthy: a real multiplexor that echoes every stream
+async fn healthy<S>(ws: tokio_tungstenite::WebSocketStream<S>, j: usize, sh: &Arc<Shared>)
+where
+    S: tokio::io::AsyncRead + tokio::io::AsyncWrite + Unpin + Send + 'static,
+{
+    let mux = Multiplexor::new(ws);
+    while let Ok(s) = mux.accept_stream_channel().await {
+        let host = String::from_utf8_lossy(&s.dest_host).to_string();
+        let port = s.dest_port;
+        sh.with(|l| l.streams.push(StreamLog { attempt: j, host, port }));
+        tokio::spawn(async move {
+            let (mut r, mut w) = tokio::io::split(s);
+            let mut buf = [0u8; 4096];
+            loop {
+                match r.read(&mut buf).await {
+                    Ok(0) | Err(_) => break,
+                    Ok(n) => {
+                        if w.write_all(&buf[..n]).await.is_err() || w.flush().await.is_err() {
+                            break;
+                        }
+                    }
+                }
+            }
+            let _ = w.shutdown().await;
+        });
+    }
+    let t = sh.now_ms();
+    sh.with(|l| l.attempts[j].peer_end_ms = Some(t));
+}
+
+/// The TLS side of the `tls-healthy` server: a self-signed certificate for 127.0.0.1, made once per process
+/// (the client runs with `--tls-skip-verify`).
+fn tls_server_config() -> Result<Arc<rustls::ServerConfig>, String> {
+    static CFG: std::sync::OnceLock<Result<Arc<rustls::ServerConfig>, String>> = std::sync::OnceLock::new();
+    CFG.get_or_init(|| {
+        let ck = rcgen::generate_simple_self_signed(vec!["127.0.0.1".to_string(), "localhost".to_string()]).map_err(|e| format!("rcgen: {e}"))?;
+        let cert = ck.cert.der().clone();
+        let key = rustls::pki_types::PrivateKeyDer::Pkcs8(rustls::pki_types::PrivatePkcs8KeyDer::from(ck.signing_key.serialize_der()));
+        let cfg = rustls::ServerConfig::builder().with_no_client_auth().with_single_cert(vec![cert], key).map_err(|e| format!("rustls server config: {e}"))?;
+        Ok(Arc::new(cfg))
+    })
+    .clone()
+}
+
+/// Read the client's first TLS record completely (5 octets of header, then the announced length): after that a
+/// TLS client says nothing more before it has heard from the server, so a close sends a FIN, not a reset.
+/// Returns (first octet, octets read).
+async fn read_first_tls_record(stream: &mut TcpStream) -> (Option<u8>, usize) {
+    let mut got = 0usize;
+    let mut first = None;
+    let _ = tokio::time::timeout(Duration::from_secs(60), async {
+        let mut hdr = [0u8; 5];
+        while got < 5 {
+            match stream.read(&mut hdr[got..]).await {
+                Ok(0) | Err(_) => return,
+                Ok(n) => {
+                    got += n;
+                    first = Some(hdr[0]);
+                }
+            }
+        }
+        let mut left = usize::from(u16::from_be_bytes([hdr[3], hdr[4]]));
+        let mut buf = [0u8; 4096];
+        while left > 0 {
+            let want = left.min(buf.len());
+            match stream.read(&mut buf[..want]).await {
+                Ok(0) | Err(_) => return,
+                Ok(n) => {
+                    got += n;
+                    left -= n;
+                }
+            }
+        }
+    })
+    .await;
+    (first, got)
+}
+
 async fn handle(mut stream: TcpStream, j: usize, beh: Option<Beh>, sh: Arc<Shared>) {
     let set = |f: &dyn Fn(&mut AttemptLog, f64)| {
         let t = sh.now_ms();
@@ -218,6 +299,51 @@ async fn handle(mut stream: TcpStream, j: usize, beh: Option<Beh>, sh: Arc<Share
             set(&|a, t| a.act_before_ms = Some(t));
             drop(stream);
             set(&|a, t| a.act_after_ms = Some(t));
+        }
+        Beh::TlsCut | Beh::TlsReset => {
+            // the server (a TLS proxy that is restarting ...) reads the ClientHello and then cuts the connection
+            // without a single octet of TLS: with a FIN (`tls-cut`: the client's TLS handshake sees an unexpected
+            // end of stream) or with a reset (`tls-reset`, SO_LINGER 0: it sees ECONNRESET)
+            let (first, got) = read_first_tls_record(&mut stream).await;
+            sh.with(|l| {
+                l.attempts[j].first_byte = first;
+                l.attempts[j].hello_len = Some(got);
+            });
+            set(&|a, t| a.act_before_ms = Some(t));
+            if beh == Beh::TlsReset {
+                #[allow(deprecated)]
+                let _ = stream.set_linger(Some(Duration::ZERO));
+            }
+            drop(stream);
+            set(&|a, t| a.act_after_ms = Some(t));
+        }
+        Beh::TlsHealthy => {
+            // a healthy `wss://` server: TLS, WebSocket upgrade, then a real multiplexor that echoes every stream
+            let cfg = match tls_server_config() {
+                Ok(c) => c,
+                Err(e) => {
+                    sh.with(|l| l.attempts[j].hs_err = Some(e));
+                    return;
+                }
+            };
+            let tls = match tokio_rustls::TlsAcceptor::from(cfg).accept(stream).await {
+                Ok(s) => s,
+                Err(e) => {
+                    let e = format!("TLS accept: {e:?}");
+                    sh.with(|l| l.attempts[j].hs_err = Some(e));
+                    return;
+                }
+            };
+            match tokio_tungstenite::accept_hdr_async(tls, echo_subprotocol).await {
+                Ok(ws) => {
+                    set(&|a, t| a.hs_done_ms = Some(t));
+                    healthy(ws, j, &sh).await;
+                }
+                Err(e) => {
+                    let e = format!("{e:?}");
+                    sh.with(|l| l.attempts[j].hs_err = Some(e));
+                }
+            }
         }
         Beh::Http404 => {
             read_http_head(&mut stream).await;
@@ -361,31 +487,7 @@ async fn handle(mut stream: TcpStream, j: usize, beh: Option<Beh>, sh: Arc<Share
                     .await;
                     set(&|a, t| a.peer_end_ms = Some(t));
                 }
-                _ => {
-                    // healthy: a real multiplexor that echoes every stream
-                    let mux = Multiplexor::new(ws);
-                    while let Ok(s) = mux.accept_stream_channel().await {
-                        let host = String::from_utf8_lossy(&s.dest_host).to_string();
-                        let port = s.dest_port;
-                        sh.with(|l| l.streams.push(StreamLog { attempt: j, host, port }));
-                        tokio::spawn(async move {
-                            let (mut r, mut w) = tokio::io::split(s);
-                            let mut buf = [0u8; 4096];
-                            loop {
-                                match r.read(&mut buf).await {
-                                    Ok(0) | Err(_) => break,
-                                    Ok(n) => {
-                                        if w.write_all(&buf[..n]).await.is_err() || w.flush().await.is_err() {
-                                            break;
-                                        }
-                                    }
-                                }
-                            }
-                            let _ = w.shutdown().await;
-                        });
-                    }
-                    set(&|a, t| a.peer_end_ms = Some(t));
-                }
+                _ => healthy(ws, j, &sh).await,
             }
         }
     }
